@@ -173,6 +173,12 @@ func c12Run(e *vh.Env, c c12Case, o *vh.Out) {
 					sc = vh.Script{Status: 200, Headers: [][2]string{{"Content-Type", "text/plain"}}, Steps: []vh.Step{{Op: "write", N: 300}}}
 				}
 				req, _ := http.NewRequest("POST", "http://"+sys.Addr+"/t", bytes.NewReader(make([]byte, 32)))
+				if r.Intn(4) == 0 {
+					// a chunked upload with a trailer (the trailer map is shared between server and transport goroutines)
+					req.Trailer = http.Header{"X-Checksum": nil}
+					req.Body = &trailerAtEOF{r: bytes.NewReader(make([]byte, 5000)), fill: func() { req.Trailer.Set("X-Checksum", "abc") }}
+					req.ContentLength = -1
+				}
 				req.Header.Set(vh.ScriptHeader, sc.Encode())
 				req.Header.Set("X-Forwarded-For", fmt.Sprintf("10.12.%d.%d", g, r.Intn(4)))
 				req.Header.Set("Accept-Encoding", "gzip")
